@@ -10,7 +10,35 @@ def GEN(t, extra=()):
     return {'modules': [t + '.asn1'], 'opts': ['-gen-PER', '-gen-OER'] + list(extra), 'skip': ['pdu_collection.c']}
 
 
+# per-type legitimate byte sinks / helpers that the default exclusion would remove
+NEEDS = {'T_SeqX': ['oer__count_bytes', 'encode_dyn_cb'], 'T_Cho': []}
+MODELS = {'T_SetOf': ['sort'], 'T_Enum': ['sort'], 'T_EnumX': ['sort'], 'T_Nest': ['sort']}
+
+
+def unexclude(ex, t):
+    for n in NEEDS.get(t, []):
+        ex = ex.replace('|' + n, '')
+    return ex
+
+
 def typed(H, name, src, t, k, defines=(), **kw):
-    ex = kw.pop('exclude', EXC[k])
+    ex = unexclude(kw.pop('exclude', EXC[k]), t)
+    kw['models'] = list(kw.get('models', [])) + MODELS.get(t, [])
     return H(name, src, gen=GEN(t), defines=['-DDRV="drv/%s.h"' % t, SY[k]] + list(defines),
              exclude=ex, roots=['asn_DEF_' + t], **kw)
+
+ALL_TYPES = ['T_Seq', 'T_SeqX', 'T_Cho', 'T_SeqOf', 'T_SetOf', 'T_Set', 'T_Int', 'T_Int8', 'T_IntR', 'T_Int16', 'T_Int17', 'T_IntOne', 'T_IntX', 'T_IntSemi', 'T_IntNeg', 'T_IntU32', 'T_Bool', 'T_Null', 'T_Enum', 'T_EnumX', 'T_Oct', 'T_OctF', 'T_OctU', 'T_Bits', 'T_IA5']
+NO_OER = {'T_Set'}
+NO_UPER = {'T_Set'}     # asn1c has no PER/OER codec for SET (asn_OP_SET slots are 0)
+HEAVY = {('T_Int', 'uper'), ('T_IntSemi', 'uper'), ('T_IntNeg', 'uper'), ('T_IntX', 'uper')}
+QUICK_TYPES = ['T_Seq', 'T_SeqX', 'T_Cho', 'T_SeqOf', 'T_Int', 'T_IntX', 'T_Oct', 'T_Bits']
+
+
+def combos(tier_all=True):
+    for t in ALL_TYPES:
+        for k in SY:
+            if k == 'oer' and t in NO_OER:
+                continue
+            if k == 'uper' and t in NO_UPER:
+                continue
+            yield t, k
